@@ -7,6 +7,8 @@ mod specio;
 mod extract;
 mod c19;
 mod c20;
+mod cratecheck;
+mod compileprops;
 mod fsprops;
 mod pipeline;
 mod model;
@@ -26,9 +28,27 @@ fn main() {
         // lnv gen-spec <seed> <index>: print the generated document of a case
         let seed: u64 = args[2].parse().unwrap();
         let index: u64 = args[3].parse().unwrap();
+        // `emit` as a fourth argument: the case numbering of the emit / compile stages
+        if args.get(4).map(|x| x == "emit").unwrap_or(false) {
+            let mut rep = report::Report::new("C02", "quick", seed);
+            let cases = emitprops::gen_cases("C02", &std::env::var("TIER").unwrap_or("quick".into()), seed, &mut rep);
+            let c = cases.iter().find(|c| c.label.starts_with(&format!("(generated seed={seed} index={index} "))).expect("case");
+            println!("{}", serde_json::to_string_pretty(&c.doc).unwrap());
+            eprintln!("{:?}", c.cfg);
+            return;
+        }
         let mut rng = rng::Rng::new(seed).fork(index);
         let mut g = specgen::SpecGen::new(&mut rng, specgen::GenOpts::clean());
         println!("{}", serde_json::to_string_pretty(&g.spec()).unwrap());
+        return;
+    }
+    if prop == "gen-crate" {
+        // lnv gen-crate <spec file> <service name> <dest>: run the real generator (developer aid)
+        let text = std::fs::read_to_string(&args[2]).unwrap();
+        let v: serde_json::Value = serde_yaml::from_str(&text).unwrap();
+        let spec = pipeline::parse_spec(&serde_json::to_string(&v).unwrap(), true).unwrap();
+        let r = pipeline::generate(&spec, &pipeline::Cfg::new(&args[3]), std::path::Path::new(&args[4]));
+        println!("{r:?}");
         return;
     }
     if prop == "smoke-extract" {
@@ -47,7 +67,9 @@ fn main() {
         "C19" => c19::run(&tier, seed, &out),
         "C20" => c20::run(&tier, seed, &out),
         "C05" | "C06" | "C07" | "C08" | "C14" | "C15" | "C17" => hirprops::run(&prop, &tier, seed, &out),
-        "C18" | "C04" | "C03" => emitprops::run(&prop, &tier, seed, &out),
+        "C18" | "C04" | "C03" | "C02" => emitprops::run(&prop, &tier, seed, &out),
+        "K02" => compileprops::run_k02(&tier, seed, &out),
+        "K16" => compileprops::run_k16(&tier, seed, &out),
         // the emitted-crate stage of properties whose first stage is on the HIR: `lnv E05 ..` etc.
         p if p.starts_with('E') => emitprops::run(&format!("C{}", &p[1..]), &tier, seed, &out),
         _ => {
